@@ -1,5 +1,5 @@
 import Pyxv.Model.Json
-import Pyxv.Model.Backends
+import Pyxv.Model.BackendsGuards
 /-! Driver operations for the container backends (C12). -/
 namespace Pyxv.Backends
 open Lean Pyxv
@@ -89,7 +89,9 @@ def opsBackends (op : String) (j : Json) : Option (Except String Json) :=
         | some rows => Json.arr (rows.map fun r => Json.arr (r.map optStrJson).toArray).toArray]).toArray)
   | "be.render" => some do
       let wb ← (← getArr j "sheets").toList.mapM sheetOfJson
-      pure (Json.mkObj [("md", jstr (renderMd wb)), ("csv", jstr (renderCsv wb)), ("book", bookJson (toBook wb))])
+      pure (Json.mkObj [("md", jstr (renderMd wb)), ("csv", jstr (renderCsv wb)), ("book", bookJson (toBook wb)),
+        ("mdok", Json.bool (Md.MdOK wb && isMarkdownTable (renderMd wb))),
+        ("csvok", Json.bool (Csv.CsvOK wb && isCsv (renderCsv wb)))])
   | "be.cell_text" => some do
       let cs ← (← getArr j "cells").toList.mapM cellOfJson
       pure (Json.arr (cs.map fun c => optStrJson (cellText c)).toArray)
